@@ -10,9 +10,12 @@ TOL = 1e-9
 
 def build_wf(n, links, rem, rev=False):
     sp = {"tasks": [{"name": F.tname(i), "work": float(rem[i])} for i in range(n)], "links": [list(l) for l in links]}
-    if rev:
+    if rev is True:
         sp["hash"] = list(range(n))[::-1]  # the sets inside the PERT passes are then iterated in the opposite order
     m = S.build(sp)
+    if rev == "samename":
+        for x in m.tasks:  # different tasks may carry the same name (IDs stay distinct)
+            x.name = "step"
     return m
 
 
@@ -134,11 +137,11 @@ def hist_items(tier):
                     out.append((n, links, rem0, 4, False))
                     if n == 3 and links:
                         out.append((n, links, rem0, 2, True))
+                        out.append((n, links, rem0, 1, "samename"))
         for links in F.fs_dags(4):
             for rem0 in itertools.product((0, 1, 2), repeat=4):
-                if sum(rem0) % 2 == 0:
-                    out.append((4, links, rem0, 3, False))
-                    out.append((4, links, rem0, 1, True))
+                out.append((4, links, rem0, 3 if sum(rem0) % 2 == 0 else 1, False))
+                out.append((4, links, rem0, 1, True))
     else:
         for n in (1, 2, 3, 4):
             for links in F.fs_dags(n):
@@ -188,6 +191,6 @@ def run(tier, seed):
 
 def replay(v):
     if v.get("kind") == "hist":
-        m, t, bad = apply_history(v["n"], [tuple(l) for l in v["links"]], tuple(v["rem0"]), tuple(tuple(o) for o in v["hist"]), bool(v.get("rev")))
+        m, t, bad = apply_history(v["n"], [tuple(l) for l in v["links"]], tuple(v["rem0"]), tuple(tuple(o) for o in v["hist"]), v.get("rev"))
         return [{"sig": sig_of(bad), "detail": {"t": t, "mismatches": bad[:8]}}] if bad else []
     return stepcheck.replay(v, [mon_c12])
